@@ -472,6 +472,24 @@ func (c *cluster) failed() bool {
 
 // ---------------------------------------------------------------- storage helpers
 
+// dirFingerprint hashes names, sizes and contents of the files of a directory.
+func dirFingerprint(dir string) uint64 {
+	h := fnv.New64a()
+	fs, _ := ioutil.ReadDir(dir)
+	for _, f := range fs {
+		if f.IsDir() {
+			continue
+		}
+		b, err := ioutil.ReadFile(filepath.Join(dir, f.Name()))
+		if err != nil {
+			continue
+		}
+		fmt.Fprintf(h, "%s:%d:", f.Name(), len(b))
+		h.Write(b)
+	}
+	return h.Sum64()
+}
+
 func copyDir(src, dst string) error {
 	return filepath.Walk(src, func(p string, info os.FileInfo, err error) error {
 		if err != nil {
@@ -616,9 +634,21 @@ func (c *cluster) killIncarnation(inc *incarnation, fin bool) {
 		return
 	}
 	n := inc.node
+	// A kill is atomic, a directory copy is not: a hook on the snapshot or a
+	// replication goroutine fires while the raft goroutine may be appending and
+	// rolling segments. The copy is repeated until two consecutive looks at the
+	// log directory agree (bounded).
 	img := c.newDir(n.id)
-	if err := copyDir(inc.dir, img); err != nil {
-		panic(err)
+	for try := 0; ; try++ {
+		before := dirFingerprint(filepath.Join(inc.dir, "log"))
+		if err := copyDir(inc.dir, img); err != nil {
+			panic(err)
+		}
+		if try >= 6 || dirFingerprint(filepath.Join(inc.dir, "log")) == before && dirFingerprint(filepath.Join(img, "log")) == before {
+			break
+		}
+		_ = os.RemoveAll(img)
+		_ = os.MkdirAll(img, 0700)
 	}
 	c.net.freezeHost(n.host, fin)
 	n.image = img
